@@ -20,10 +20,10 @@
 (* FASTA write), DeleteFai / DeleteAgp, Start(p).                                                  *)
 (***************************************************************************************************)
 EXTENDS Naturals, Integers, Sequences, FiniteSets, TLC, Json
-CONSTANTS Procs, NBfai, NBagp, MaxClock, MaxVer, Protocol, MaxSwitch, AllowCrash, AllowHistory, MaxStarts, StrictNewer
-VARIABLES clock, fasta, fs, pc, loc, res, last, switches, starts, hist
-vars == <<clock, fasta, fs, pc, loc, res, last, switches, starts, hist>>
-View == <<clock, fasta, fs, pc, loc, res, last, switches, starts>>
+CONSTANTS Procs, NBfai, NBagp, MaxClock, MaxVer, Protocol, MaxSwitch, AllowCrash, AllowHistory, MaxStarts, StrictNewer, FlushModes, CrashInWrites
+VARIABLES clock, fasta, fs, pc, loc, res, last, switches, starts, hist, flushy
+vars == <<clock, fasta, fs, pc, loc, res, last, switches, starts, hist, flushy>>
+View == <<clock, fasta, fs, pc, loc, res, last, switches, starts, flushy>>
 
 NB(w) == IF w = "fai" THEN NBfai ELSE NBagp
 Absent == [ex |-> FALSE, ver |-> 0, blocks |-> {}, mt |-> 0]
@@ -44,7 +44,8 @@ Init == /\ clock = 1
         /\ last = CHOOSE p \in Procs : TRUE
         /\ switches = 0
         /\ starts = 0
-        /\ hist = <<>>
+        /\ flushy \in FlushModes
+        /\ hist = <<Ev("f", IF flushy THEN "1" ELSE "0")>>
 
 Quiet == \A p \in Procs : pc[p] \in Stopped
 
@@ -54,7 +55,7 @@ Sched(p) == /\ IF last # p /\ pc[last] \notin Stopped
                ELSE switches' = switches
             /\ last' = p
 Goto(p, l) == pc' = [pc EXCEPT ![p] = l]
-Keep == UNCHANGED <<clock, fasta, starts>>
+Keep == UNCHANGED <<clock, fasta, starts, flushy>>
 Log(k, x) == hist' = Append(hist, Ev(k, x))
 
 Start(p) == /\ pc[p] \in Stopped /\ starts < MaxStarts
@@ -62,7 +63,7 @@ Start(p) == /\ pc[p] \in Stopped /\ starts < MaxStarts
             /\ Goto(p, "ctor")
             /\ loc' = [loc EXCEPT ![p] = NoLoc]
             /\ res' = [res EXCEPT ![p] = NoRes]
-            /\ Sched(p) /\ Log("b", p) /\ UNCHANGED <<clock, fasta, fs>>
+            /\ Sched(p) /\ Log("b", p) /\ UNCHANGED <<clock, fasta, fs, flushy>>
 
 \* FastaIndex.__init__: fasta_file.exists()
 StatCtor(p) == /\ pc[p] = "ctor" /\ Sched(p) /\ Keep /\ Goto(p, "statFasta") /\ UNCHANGED <<fs, loc, res>>
@@ -105,17 +106,20 @@ OpenTrunc(p, here, w, next) ==
     /\ fs' = [fs EXCEPT ![Target(p, w)] = [ex |-> TRUE, ver |-> loc[p].cv, blocks |-> {}, mt |-> clock]]
     /\ loc' = [loc EXCEPT ![p].wb = 0]
     /\ Goto(p, next) /\ UNCHANGED res
-\* each write call (flush boundary) puts the next block at this descriptor's own offset
+\* each write call puts the next block at this descriptor's own offset.  flushy = TRUE: every write reaches the file at once (a flush
+\* boundary after every write call); flushy = FALSE: written data stays in the process's buffer until close (and is lost by a crash)
 WriteBlock(p, here, w, next) ==
     /\ pc[p] = here /\ Sched(p) /\ Keep
     /\ LET t == Target(p, w)  k == loc[p].wb + 1
-       IN /\ fs' = [fs EXCEPT ![t] = [ex |-> TRUE, ver |-> loc[p].cv, blocks |-> fs[t].blocks \cup {k}, mt |-> clock]]
+       IN /\ fs' = IF flushy THEN [fs EXCEPT ![t] = [ex |-> TRUE, ver |-> loc[p].cv, blocks |-> fs[t].blocks \cup {k}, mt |-> clock]] ELSE fs
           /\ loc' = [loc EXCEPT ![p].wb = k]
           /\ Goto(p, IF k = NB(w) THEN next ELSE here)
     /\ UNCHANGED res
 CloseW(p, here, w, next) ==
     /\ pc[p] = here /\ Sched(p) /\ Keep
-    /\ fs' = [fs EXCEPT ![Target(p, w)].mt = IF fs[Target(p, w)].ex THEN clock ELSE @]
+    /\ LET t == Target(p, w) IN
+       fs' = IF flushy THEN [fs EXCEPT ![t].mt = IF fs[t].ex THEN clock ELSE @]
+             ELSE [fs EXCEPT ![t] = [ex |-> TRUE, ver |-> loc[p].cv, blocks |-> (IF fs[t].ex THEN fs[t].blocks ELSE {}) \cup 1..loc[p].wb, mt |-> clock]]
     /\ Goto(p, next) /\ UNCHANGED <<loc, res>>
 Replace(p, here, w, next) ==
     /\ pc[p] = here /\ Sched(p) /\ Keep
@@ -151,16 +155,19 @@ Fail(p) == /\ \/ (pc[p] = "rdAgp" /\ loc[p].lf.blocks # 1..NBfai)
            /\ Sched(p) /\ Keep /\ Goto(p, "error") /\ UNCHANGED <<fs, loc, res>>
 
 PStep(p) == (Step(p) \/ Fail(p)) /\ Log("s", p)
-Crash(p) == /\ AllowCrash /\ pc[p] \notin Stopped
-            /\ Goto(p, "crashed") /\ Log("c", p) /\ UNCHANGED <<clock, fasta, fs, loc, res, last, switches, starts>>
+\* CrashInWrites = "ends": inside a run of write calls only the first two and the last crash point are explored (quick tier)
+CrashPoint(p) == \/ CrashInWrites = "all" \/ pc[p] \notin {"wFai", "wAgp"}
+                 \/ loc[p].wb \in {0, 1} \/ loc[p].wb = NB(IF pc[p] = "wFai" THEN "fai" ELSE "agp") - 1
+Crash(p) == /\ AllowCrash /\ pc[p] \notin Stopped /\ CrashPoint(p)
+            /\ Goto(p, "crashed") /\ Log("c", p) /\ UNCHANGED <<clock, fasta, fs, loc, res, last, switches, starts, flushy>>
 Tick == /\ clock < MaxClock /\ clock' = clock + 1 /\ Log("t", "")
-        /\ UNCHANGED <<fasta, fs, pc, loc, res, last, switches, starts>>
+        /\ UNCHANGED <<fasta, fs, pc, loc, res, last, switches, starts, flushy>>
 RewriteFasta == /\ AllowHistory /\ Quiet /\ fasta.ver < MaxVer /\ clock > fasta.mt
                 /\ fasta' = [ver |-> fasta.ver + 1, mt |-> clock] /\ Log("r", "")
-                /\ UNCHANGED <<clock, fs, pc, loc, res, last, switches, starts>>
+                /\ UNCHANGED <<clock, fs, pc, loc, res, last, switches, starts, flushy>>
 Delete(f) == /\ AllowHistory /\ Quiet /\ fs[Pub(f)].ex
              /\ fs' = [fs EXCEPT ![Pub(f)] = Absent] /\ Log("d", f)
-             /\ UNCHANGED <<clock, fasta, pc, loc, res, last, switches, starts>>
+             /\ UNCHANGED <<clock, fasta, pc, loc, res, last, switches, starts, flushy>>
 
 Next == \/ \E p \in Procs : Start(p) \/ PStep(p) \/ Crash(p)
         \/ Tick \/ RewriteFasta \/ Delete("fai") \/ Delete("agp")
@@ -182,5 +189,7 @@ PublishedComplete == Protocol = "rename" => \A w \in {"fai", "agp"} : fs[Pub(w)]
 \* behaviour export (VIEW hides hist): one shortest schedule per distinct quiet state, and - because a race shows at the
 \* moment one process finishes while others are mid-run - per distinct state in which a process has just finished
 JustFinished == \E p \in Procs : pc[p] \in {"done", "error"} /\ last = p /\ ~Quiet
-Emit == ((Quiet /\ starts > 0) \/ JustFinished) => PrintT(ToJson(hist))
+\* priority for sampling: a run that LOADED the cache although an earlier run crashed or the FASTA was rewritten is where staleness shows
+Risky == (\E p \in Procs : pc[p] = "done" /\ res[p].kind = "loaded") /\ (\E q \in 1..Len(hist) : hist[q][1] \in {"c", "r"})
+Emit == ((Quiet /\ starts > 0) \/ JustFinished) => PrintT(ToJson([h |-> hist, pri |-> IF Risky THEN 1 ELSE 0]))
 ====
